@@ -273,6 +273,17 @@ pub fn process_str(input: &str, context: &mut Context) -> Result<String, Error> 
     Ok(String::from_utf8(output).expect("Input was utf8, so output should be too..."))
 }
 
+// An input / output failure (a byte sequence that is not UTF-8, a directory given as a file) is
+// reported where it happened
+fn io_error(e: std::io::Error, filename: &str, included_in: &Option<(String, u32)>, line: u32) -> Error {
+    Error::Syntax {
+        filename: filename.to_string(),
+        included_in: included_in.clone(),
+        line,
+        msg: e.to_string(),
+    }
+}
+
 /// Preprocesses a generic buffer.
 ///
 /// This function takes any generic BufRead input and Write output and preprocesses it.
@@ -301,7 +312,11 @@ pub fn process<I: BufRead, O: Write>(
         None => (None, None),
     };
 
-    while input.read_line(&mut buf)? > 0 {
+    while input
+        .read_line(&mut buf)
+        .map_err(|e| io_error(e, &filename, &included_in, line + 1))?
+        > 0
+    {
         line += 1;
 
         // Process splices by removing them...
@@ -313,7 +328,11 @@ pub fn process<I: BufRead, O: Write>(
                 buf.pop();
                 buf.pop();
                 let mut buf2 = String::new();
-                if input.read_line(&mut buf2)? > 0 {
+                if input
+                    .read_line(&mut buf2)
+                    .map_err(|e| io_error(e, &filename, &included_in, line + 1))?
+                    > 0
+                {
                     buf.push_str(&buf2);
                     line += 1;
                 } else {
@@ -695,7 +714,8 @@ pub fn process<I: BufRead, O: Write>(
                                         msg: "#include nested too deeply".to_string(),
                                     });
                                 }
-                                let f = File::open(path)?;
+                                let f = File::open(path)
+                                    .map_err(|e| io_error(e, &filename, &included_in, line))?;
                                 let assembler = fname.ends_with(".inc")
                                     || fname.ends_with(".a")
                                     || fname.ends_with(".asm");
